@@ -733,7 +733,7 @@ impl<'a> Exec<'a> {
                 let ino = self.resolve(&p)?;
                 self.regular_or_dirlike(ino)?;
                 let mut st: stat64 = unsafe { std::mem::zeroed() };
-                st.st_size = (op["n"].as_u64().unwrap_or(0) * blocks.b as u64) as i64;
+                st.st_size = (op["len"].as_u64().unwrap_or(0) * blocks.b as u64) as i64;
                 self.fs.setattr(&self.ctx, ino, st, None, SetattrValid::SIZE).map(|_| ()).map_err(e2n)
             }
             "chmod" => {
@@ -995,7 +995,7 @@ impl Gen {
             let s = pick_row(self, &files);
             let p = or_rand(self, s);
             let len = rows.iter().find(|x| path_of(&x["p"]) == p).map(|x| parse_runs(&x["c"]).iter().map(|t| t.2).sum::<u64>()).unwrap_or(0);
-            json!({"op":"truncate","p":p,"n":self.rng.below(len + 2)})
+            json!({"op":"truncate","p":p,"len":self.rng.below(len + 2)})
         } else if r < 92 {
             let s = pick_row(self, &anyrow);
             let p = or_rand(self, s);
